@@ -456,10 +456,37 @@ fn structured_args(target: usize) -> BoxedStrategy<Vec<Vec<u8>>> {
     let any_enc = (0usize..9).prop_flat_map(|g| (0..crate::props::c06::DEC_CLASSES.len()).prop_flat_map(move |k| dec_strategy(g, k)));
     let msg = prop::collection::vec(any::<u8>(), 0..80);
     let sig = prop_oneof![prop::collection::vec(any::<u8>(), 64), prop::collection::vec(any::<u8>(), 48), prop::collection::vec(any::<u8>(), 114), prop::collection::vec(any::<u8>(), 0..130)];
+    // valid signatures (built with the reference model) so that verification runs to its end; optionally re-encoded
+    let ed_valid = |c448: bool| {
+        (prop::collection::vec(any::<u8>(), if c448 { 57 } else { 32 }), prop::collection::vec(any::<u8>(), 0..60))
+            .prop_map(move |(seed, m)| {
+                let sch = if c448 { refmodel::schemes::eddsa448() } else { refmodel::schemes::eddsa25519() };
+                let sig = sch.sign(&seed, refmodel::schemes::EdVariant::Raw, &[], &m);
+                let (_, _, pk) = sch.expand(&seed);
+                vec![pk, sig, m, vec![]]
+            })
+            .boxed()
+    };
+    let ecdsa_valid = (any::<bool>(), prop::collection::vec(any::<u8>(), 40), prop::collection::vec(any::<u8>(), 0..70), prop::sample::select(vec![32usize, 32, 33, 34, 40, 48, 64, 65, 100]), any::<bool>())
+        .prop_map(|(k1, d, hv, half, compressed)| {
+            use refmodel::curves::RefGroup;
+            let sch = if k1 { refmodel::schemes::ecdsa_secp256k1() } else { refmodel::schemes::ecdsa_p256() };
+            let di = (refmodel::pf::from_le(&d) % (&sch.curve.order - 1u32)) + 1u32;
+            let q = sch.public(&di);
+            let pk = if compressed { sch.curve.encode(&q) } else { sch.curve.encode_uncompressed(&q) };
+            let sig = sch.sign(&di, &hv, &[]).unwrap_or(vec![1u8; 64]);
+            // zero-padded big-endian halves of `half` bytes
+            let mut out = vec![0u8; half - 32];
+            out.extend_from_slice(&sig[..32]);
+            out.extend(vec![0u8; half - 32]);
+            out.extend_from_slice(&sig[32..]);
+            vec![pk, out, hv, vec![]]
+        })
+        .boxed();
     match TARGETS[target] {
-        "ed25519_verify" | "ed25519_verify_trunc" => (enc_strategy(0), sig, msg.clone(), msg).prop_map(|(a, b, c, d)| vec![a, b, c, d]).boxed(),
-        "ed448_verify" => (enc_strategy(1), sig, msg.clone(), msg).prop_map(|(a, b, c, d)| vec![a, b, c, d]).boxed(),
-        "p256_verify_trunc" | "ecdsa_verify" => (prop_oneof![enc_strategy(2), enc_strategy(3)], sig, msg.clone(), msg).prop_map(|(a, b, c, d)| vec![a, b, c, d]).boxed(),
+        "ed25519_verify" | "ed25519_verify_trunc" => prop_oneof![1 => ed_valid(false), 1 => (enc_strategy(0), sig.clone(), msg.clone(), msg.clone()).prop_map(|(a, b, c, d)| vec![a, b, c, d])].boxed(),
+        "ed448_verify" => prop_oneof![1 => ed_valid(true), 1 => (enc_strategy(1), sig.clone(), msg.clone(), msg.clone()).prop_map(|(a, b, c, d)| vec![a, b, c, d])].boxed(),
+        "p256_verify_trunc" | "ecdsa_verify" => prop_oneof![2 => ecdsa_valid, 1 => (prop_oneof![enc_strategy(2), enc_strategy(3)], sig.clone(), msg.clone(), msg.clone()).prop_map(|(a, b, c, d)| vec![a, b, c, d])].boxed(),
         "schnorr_verify" | "ecdh" => (prop_oneof![enc_strategy(4), enc_strategy(5), enc_strategy(6)], sig, msg.clone(), Just(vec![])).prop_map(|(a, b, c, d)| vec![a, b, c, d]).boxed(),
         "vartime_helpers" => ((0usize..9).prop_flat_map(enc_strategy), (0usize..9, 0usize..7).prop_flat_map(|(g, c)| gscalar(g, c)), (0usize..9, 0usize..7).prop_flat_map(|(g, c)| gscalar(g, c)), (0usize..9).prop_flat_map(enc_strategy)).prop_map(|(a, b, c, d)| vec![a, b, c, d]).boxed(),
         "splits" => ((0usize..9, 0usize..7).prop_flat_map(|(g, c)| gscalar(g, c))).prop_map(|a| vec![a]).boxed(),
